@@ -97,7 +97,7 @@ Theorem C09_trusted_overrides : forall parse_uri parse_ip parse_cidr split_host_
     listed_cfg parse_ip parse_cidr split_host_port m cfg (r_remote r) ->
     exists xs, announced_of (hdr_ci FWD raw) (hdr_ci XFF raw) xs /\
     s_view (handle parse_uri parse_ip parse_cidr split_host_port true m cfg r raw) =
-    let uri := match hdr_ci XFU raw with Some v => if nonempty v then parse_uri v else None | None => None end in
+    let uri := match hdr_ci XFU raw with Some v => if nonempty v then Some (read_uri parse_uri v) else None | None => None end in
     {| v_method := override (hdr_ci XFM raw) (r_method r);
        v_scheme := override (hdr_ci XFP raw) (if r_tls r then "https" else "http");
        v_host := override (hdr_ci XFH raw) (r_host r);
